@@ -12,7 +12,8 @@ def comps(p):
 def gen_tree(rng, max_nodes=10, links=True):
     """-> list of (relpath under tmp, kind, payload); tmp-level dirs: root, rootx, outside"""
     nodes = [("root", "d", None), ("rootx", "d", None), ("outside", "d", None),
-             ("outside/secret.txt", "f", b"SENTINEL-OUTSIDE-secret"), ("rootx/sib.gmi", "f", b"SENTINEL-SIBLING-sib")]
+             ("outside/secret.txt", "f", b"SENTINEL-OUTSIDE-secret"), ("rootx/sib.gmi", "f", b"# SENTINEL-SIBLING-sib\nbody of the sibling page"),
+             ("outside/journal.gmi", "f", b"# SENTINEL-OUTSIDE-journal heading\nprivate journal")]
     dirs = ["root"]
     used = set(n[0] for n in nodes)
     n = rng.randint(1, max_nodes)
@@ -26,14 +27,14 @@ def gen_tree(rng, max_nodes=10, links=True):
             nodes.append((rel, "d", None)); dirs.append(rel)
         elif k < 0.75 or not links:
             ck = rng.random()
-            if ck < 0.8: content = ("SENTINEL-%d-%s" % (i, name)).encode("utf-8")
+            if ck < 0.8: content = (("# " if name.endswith((".gmi", ".gemini")) and rng.random() < 0.5 else "") + "SENTINEL-%d-%s" % (i, name)).encode("utf-8")
             elif ck < 0.9: content = b"SENTINEL-%d-\xff\xfe binary" % i
             else: content = b""
             nodes.append((rel, "f", content))
         else:
             depth = len(comps(rel)) - 1
             tk = rng.random()
-            if tk < 0.2: target = "../" * depth + "outside/secret.txt"
+            if tk < 0.2: target = "../" * depth + rng.choice(["outside/secret.txt", "outside/journal.gmi"])
             elif tk < 0.3: target = "ABS:outside/secret.txt"
             elif tk < 0.4: target = "../" * depth + "outside"
             elif tk < 0.5: target = "../" * depth + "rootx/sib.gmi"
